@@ -207,6 +207,7 @@ func checkC11(c *Ctx) {
 		reqs[i] = cases[i].req
 	}
 	minCanary := 1 << 30
+	maxCanary := 0
 	c.runBatches(reqs, 6, func(i int, req *Req, resp *Resp) {
 		cs := cases[i]
 		c.Count("evaluations", int64(reps))
@@ -225,6 +226,9 @@ func checkC11(c *Ctx) {
 			return
 		}
 		c.mu.Lock()
+		if resp.CanaryOrders > maxCanary {
+			maxCanary = resp.CanaryOrders
+		}
 		if resp.CanaryOrders > 0 && resp.CanaryOrders < minCanary {
 			minCanary = resp.CanaryOrders
 		}
@@ -282,8 +286,12 @@ func checkC11(c *Ctx) {
 		}
 	}
 	c.Extra("canary_min_distinct_map_orders_seen", minCanary)
-	if minCanary < 5 {
-		c.Inconclusive(fmt.Sprintf("the canary saw only %d distinct map iteration orders: randomisation not demonstrated", minCanary))
+	c.Extra("canary_max_distinct_map_orders_seen", maxCanary)
+	// a 6-key map has at most 8 iteration orders; with 40 repetitions a single request can by
+	// chance see only 3 or 4 of them, so the demonstration is judged on the best request and
+	// requires that no request saw a single order only
+	if maxCanary < 5 || minCanary < 2 {
+		c.Inconclusive(fmt.Sprintf("the canary saw between %d and %d distinct map iteration orders per request: randomisation not demonstrated", minCanary, maxCanary))
 	}
 }
 
